@@ -435,7 +435,17 @@ impl Cx<'_> {
         for k in 0..n {
             match self.types[idx].params[k].concrete.clone() {
                 Some(c) => args.push(c),
-                None => args.push(self.gen_ty_inner(t, params, depth + 1, true)),
+                None => {
+                    // now and then a user type inside a container as argument (`Wrapper<Vec<Leaf>>`):
+                    // the argument's own type arguments are dependencies as well
+                    let plain: Vec<usize> = (0..idx).filter(|i| self.types[*i].params.is_empty() && self.types[*i].lifetimes.is_empty() && self.types[*i].consts.is_empty()).collect();
+                    if !plain.is_empty() && t.pct(20) {
+                        let u = TyExpr::User(*t.pick(&plain), vec![]);
+                        args.push(if t.pct(50) { TyExpr::Vec(Box::new(u)) } else { TyExpr::Option(Box::new(u)) });
+                    } else {
+                        args.push(self.gen_ty_inner(t, params, depth + 1, true));
+                    }
+                }
             }
         }
         // `optional_fields` decides the `?` on the concrete argument: an Option argument for a bare
